@@ -276,7 +276,11 @@ def run_property(modname, tier, seed, replay=None, jobs=None):
             found.append(st["violation"])
     # ---- confirm found violations (3x replay from the saved file), de-duplicate
     os.makedirs(rdir, exist_ok=True)
-    for v in found:
+    # at most four of them are confirmed and minimised (smallest first): one violation decides the run, and with an expensive
+    # oracle (C30 waits for time-outs) a dozen minimisations would take an hour
+    found.sort(key=lambda v: len(json.dumps(v["case"], default=str)))
+    classes["found_by_workers"] = len(found)
+    for v in found[:4]:
         case = v["case"]
         again = replay_case(mod, case, ctx, 3)
         if not all(r.status == "violation" for r in again):
